@@ -112,6 +112,7 @@ type Exec struct {
 	strMeta    map[*Arr]*fmtRecord
 	strPieces  map[*Arr][]*StrV
 	symCache   map[int][]string
+	bigInts    map[*Cell]*bigVal
 }
 
 type Observation struct {
